@@ -78,7 +78,7 @@ def guard_and_must(ck, f, label, rule_guard="R-C03-GUARD", rule_must="R-C03-MUST
     return n
 
 
-def args_rule(ck, mod, f, label):
+def args_rule(ck, mod, f, label, parts=("C03", "C04")):
     """call-site arguments of check_tag: size 8; tag1 = 8-byte local filled by generate_tag on that path;
     tag2 = c0 + (clen0 - 8); plaintext = entry m; plaintext_len = clen0 - 8"""
     call = ct_call(f)
@@ -88,6 +88,13 @@ def args_rule(ck, mod, f, label):
     mi, ci, li = f.param_index("m"), f.param_index("c"), f.param_index("clen")
     if None in (mi, ci, li):
         raise Broken("anchor vanished: m/c/clen parameters of %s" % f.name)
+    if "C03" in parts:
+        _args_c03(ck, mod, f, label, call, a, A, where, ci, li)
+    if "C04" in parts:
+        _args_c04(ck, mod, f, label, call, a, A, where, mi, li)
+
+
+def _args_c03(ck, mod, f, label, call, a, A, where, ci, li):
     # size
     ck.ob(a[4][0] == "c" and const_val(a[4]) == TAG, "R-C03-ARGS", f.name, "size[%s]" % label, "all 8 tag bytes are compared (size = 8)",
           "check_tag is asked to compare %s bytes instead of the 8-byte tag" % (a[4],), where=where)
@@ -124,6 +131,9 @@ def args_rule(ck, mod, f, label):
     ck.ob(ok, "R-C03-ARGS", f.name, "received-tag-position[%s]" % label,
           "tag2 == c + clen - 8 on every path (cursor advanced in lock-step with the remaining length, all residues)",
           "the received tag is not read from c + clen - 8 on every path: %s" % why, where=where)
+
+
+def _args_c04(ck, mod, f, label, call, a, A, where, mi, li):
     # C04: plaintext pointer is the entry m, length is clen - 8
     okp = ir.ptr_base(f, a[0]) == (("a", mi), 0)
     ck.ob(okp, "R-C04-ARGS", f.name, "wipe-start[%s]" % label, "check_tag receives the start of the plaintext buffer (entry value of m)",
